@@ -597,4 +597,88 @@ theorem run_spec {σ} (maxCap : Nat) (input : Bytes) (ops : Ops σ) :
       rw [hs] at h
       exact ih s' out sf ((step_spec maxCap input ops s hinv).1 s' hs) h
 
+
+/-! ### no panic outcome, for a parser that never panics and never over-reports -/
+
+/-- what the loop needs from the parser, relative to a parser-state invariant `Q` -/
+def ParserSafe {σ} (ops : Ops σ) (Q : σ → Prop) : Prop :=
+  (∀ st w, Q st → (∃ n st', ops.parseMore st w = .ok n st' ∧ n ≤ w.length ∧ Q st') ∨
+      (∃ k l, ops.parseMore st w = .err k l)) ∧
+  (∀ st, Q st → Q (ops.bumpLine st))
+
+theorem parseBlock_safe {σ} (ops : Ops σ) (Q : σ → Prop) (hP : ParserSafe ops Q) (s : St σ) (hs : Q s.ps) :
+    (∀ s', parseBlock ops s = .inl s' → Q s'.ps) ∧
+    (∀ out sf, parseBlock ops s = .inr (out, sf) → (∀ e, out ≠ .panic e) ∧ ∀ ps, out ≠ .ok ps) := by
+  unfold parseBlock
+  split
+  · exact ⟨fun s' h => (by cases h; exact hs), fun _ _ h => (by cases h)⟩
+  · dsimp only
+    rcases hP.1 s.ps s.buf.data hs with ⟨n, st', hpm, hn, hq⟩ | ⟨k, l, hpm⟩
+    · rw [hpm]
+      dsimp only
+      rw [if_neg (by omega)]
+      exact ⟨fun s' h => (by cases h; exact hq), fun _ _ h => (by cases h)⟩
+    · rw [hpm]
+      refine ⟨fun _ h => (by cases h), fun out sf h => ?_⟩
+      cases h
+      exact ⟨fun e h => (by cases h), fun ps h => (by cases h)⟩
+
+theorem step_safe {σ} (maxCap : Nat) (ops : Ops σ) (Q : σ → Prop) (hP : ParserSafe ops Q) (s : St σ)
+    (hs : Q s.ps) :
+    (∀ s', step maxCap ops s = .inl s' → Q s'.ps) ∧
+    (∀ out sf, step maxCap ops s = .inr (out, sf) → (∀ e, out ≠ .panic e) ∧ ∀ ps, out = .ok ps → Q ps) := by
+  unfold step
+  have h1 : Q (if s.inRecovery = true then recoverBlock ops s else s).ps := by
+    split
+    · unfold recoverBlock
+      dsimp only
+      split
+      · exact hP.2 _ hs
+      · exact hs
+    · exact hs
+  generalize (if s.inRecovery = true then recoverBlock ops s else s) = s1 at h1
+  dsimp only
+  have h2 : Q (readBlock s1).1.ps := h1
+  split
+  · unfold zeroBlock
+    split
+    · obtain ⟨p1, p2⟩ := parseBlock_safe ops Q hP _ h2
+      exact ⟨p1, fun out sf h => ⟨(p2 out sf h).1, fun ps hps => absurd hps ((p2 out sf h).2 ps)⟩⟩
+    · split
+      · refine ⟨fun _ h => (by cases h), fun out sf h => ?_⟩
+        cases h
+        exact ⟨fun e h => (by cases h), fun ps h => (by cases h; exact h2)⟩
+      · split
+        · dsimp only
+          split
+          · exact ⟨fun s' h => (by cases h; exact h2), fun _ _ h => (by cases h)⟩
+          · exact ⟨fun s' h => (by cases h; exact h2), fun _ _ h => (by cases h)⟩
+        · split
+          · refine ⟨fun _ h => (by cases h), fun out sf h => ?_⟩
+            cases h
+            exact ⟨fun e h => (by cases h), fun ps h => (by cases h)⟩
+          · refine ⟨fun _ h => (by cases h), fun out sf h => ?_⟩
+            cases h
+            exact ⟨fun e h => (by cases h), fun ps h => (by cases h)⟩
+  · obtain ⟨p1, p2⟩ := parseBlock_safe ops Q hP { (readBlock s1).1 with triedToGrow := false } h2
+    exact ⟨p1, fun out sf h => ⟨(p2 out sf h).1, fun ps hps => absurd hps ((p2 out sf h).2 ps)⟩⟩
+
+theorem run_safe {σ} (maxCap : Nat) (ops : Ops σ) (Q : σ → Prop) (hP : ParserSafe ops Q) :
+    ∀ (fuel : Nat) (s : St σ) (out : Out σ) (sf : St σ), Q s.ps → run maxCap ops fuel s = some (out, sf) →
+      (∀ e, out ≠ .panic e) ∧ ∀ ps, out = .ok ps → Q ps := by
+  intro fuel
+  induction fuel with
+  | zero => intro s out sf _ h; simp [run] at h
+  | succ n ih =>
+    intro s out sf hs h
+    unfold run at h
+    obtain ⟨s1, s2⟩ := step_safe maxCap ops Q hP s hs
+    cases hst : step maxCap ops s with
+    | inr r =>
+      rw [hst] at h; cases h
+      exact s2 out sf hst
+    | inl s' =>
+      rw [hst] at h
+      exact ih s' out sf (s1 s' hst) h
+
 end MdModel.Stream
